@@ -88,6 +88,16 @@ static std::string doc_op(Document& d, int op) {
       c2.CopyFrom(c, c2.GetAllocator(), true);
       return "C" + c2.Dump();
     }
+    case 11: {
+      // the caller WRITES through the reference that the non-const operator[] returns for a missing key (a placeholder
+      // node), then looks up another missing key: it must read null, and so must every other thread
+      if (!d.IsObject()) d.SetObject();
+      d["no-such-key-w"].SetInt64(7);
+      d["no-such-key-w2"] = Node("text");
+      const Document& c = d;
+      std::string r = std::string("w") + (c["other-missing"].IsNull() ? "n" : "x") + (d["third-missing"].IsNull() ? "n" : "x");
+      return r;
+    }
     case 10: {
       // freeing-allocator document, lookup map, equality, Swap, move
       GenericDocument<DNode<SimpleAllocator>> s1, s2;
@@ -201,13 +211,13 @@ int main(int argc, char** argv) {
   vr::Runner R(args);
   const bool quick = R.quick();
   const int rounds = quick ? 20 : 200;
-  const int NA = 11, NB = 10;
+  const int NA = 12, NB = 10;
   vr::Family fa, fb, fbm, fc;
   fa.name = "TA_independent_documents";
   fa.count = (uint64_t)NA * NA * rounds;
   fa.chunk = 4;
   fa.group = "TA";
-  fa.rule = "scenario A under TSan, free-running: 2-3 threads each working on their OWN document; every ordered pair of operations from {Parse, mutate, operator[] miss (non-const), Dump, operator[] miss (const), ParseOnDemand, ParseSchema, UpdateLazy, GetOnDemand / ParseOnDemand through escaped keys, a document over a pool with a stateful user-supplied base allocator, a freeing-allocator document with map / == / Swap / move} x rounds; an allocator instance entered by two threads is reported even without an overlap";
+  fa.rule = "scenario A under TSan, free-running: 2-3 threads each working on their OWN document; every ordered pair of operations from {Parse, mutate, operator[] miss (non-const), Dump, operator[] miss (const), ParseOnDemand, ParseSchema, UpdateLazy, GetOnDemand / ParseOnDemand through escaped keys, a document over a pool with a stateful user-supplied base allocator, a freeing-allocator document with map / == / Swap / move, writes through the operator[] miss placeholder} x rounds; an allocator instance entered by two threads is reported even without an overlap";
   fb.name = "TB_shared_readonly_document";
   fb.count = (uint64_t)NB * NB * rounds;
   fb.chunk = 4;
